@@ -11,13 +11,22 @@ mkdir -p .build/ov bin
 if ! go build -o bin/instrument ./cmd/instrument 2> .build/instrument.err; then
   echo "ENGINE-ERROR building instrumenter"; cat .build/instrument.err; exit 2
 fi
-ov=$(bin/instrument -repo /repo -out /verif/.build/ov -add /verif/inpkg 2> .build/instrument.$id.err)
+# VERIF_REPO (development only): explore another checkout of mieru instead of /repo, e.g. a
+# scratch worktree with a candidate fix or a seeded change; registered commands never set it.
+repo=${VERIF_REPO:-/repo}
+modflag=""
+if [ "$repo" != /repo ]; then
+  sed "s#=> /repo#=> $repo#" go.mod > .build/alt.$$.mod; cp go.sum .build/alt.$$.sum
+  modflag="-modfile=.build/alt.$$.mod"
+  trap 'rm -f .build/alt.$$.mod .build/alt.$$.sum' EXIT
+fi
+ov=$(bin/instrument -repo $repo -out /verif/.build/ov -add /verif/inpkg 2> .build/instrument.$id.err)
 if [ -z "$ov" ] || [ ! -f "$ov" ]; then
   echo "ENGINE-ERROR instrumenting /repo failed (does the tree parse?)"; cat .build/instrument.$id.err; exit 2
 fi
 h=$(basename "$(dirname "$ov")")
 bin=.build/check-$h
-if ! go build -tags verif -overlay "$ov" -o "$bin.$$" ./cmd/check 2> .build/build.$id.err; then
+if ! go build $modflag -tags verif -overlay "$ov" -o "$bin.$$" ./cmd/check 2> .build/build.$id.err; then
   echo "ENGINE-ERROR building the check binary against the current /repo tree failed"; head -50 .build/build.$id.err; rm -f "$bin.$$"; exit 2
 fi
 mv -f "$bin.$$" "$bin"
@@ -25,7 +34,7 @@ mv -f "$bin.$$" "$bin"
 if [ "$id" = C15 ] && [ -z "${VERIF_NO_RACEPASS:-}" ]; then
   rp=.build/racepass-$h-$(cat cmd/racepass/*.go | sha1sum | cut -c1-8)
   if [ ! -x "$rp" ]; then
-    if ! go build -race -o "$rp.$$" ./cmd/racepass 2> .build/build.racepass.err; then
+    if ! go build $modflag -race -o "$rp.$$" ./cmd/racepass 2> .build/build.racepass.err; then
       echo "ENGINE-ERROR building the race pass against the current /repo tree failed"; head -50 .build/build.racepass.err; rm -f "$rp.$$"; exit 2
     fi
     mv -f "$rp.$$" "$rp"
@@ -36,4 +45,5 @@ fi
 # keep the build directory small: drop overlays and binaries other than the 3 most recent
 ls -1dt .build/ov/*/ 2>/dev/null | tail -n +4 | xargs -r rm -rf
 ls -1t .build/check-* 2>/dev/null | tail -n +4 | xargs -r rm -f
+if [ -n "$modflag" ]; then "$bin" "$id" -tier "$tier" "$@"; exit $?; fi
 exec "$bin" "$id" -tier "$tier" "$@"
